@@ -375,7 +375,11 @@ func (p *Process) internalStop() error {
 }
 
 func (p *Process) stopProcess(cancelReadinessFuncs bool) error {
-	p.runCancelFn()
+	if cancelReadinessFuncs {
+		// an internal stop (readiness probe failure) must leave the restart
+		// policy in charge: cancelling the run context would abort the restart
+		p.runCancelFn()
+	}
 	if !p.isRunning() {
 		log.Debug().Msgf("process %s is in state %s not shutting down", p.getName(), p.getStatusName())
 		// prevent pending process from running
